@@ -230,8 +230,26 @@ pub fn gen_qos_pid(t: &mut Tape) -> QosPid {
     }
 }
 
+thread_local! {
+    /// 0 = every optional part is an independent choice; 1 = all present; 2 = all absent (set per generated packet)
+    static OPT_MODE: std::cell::Cell<u8> = const { std::cell::Cell::new(0) };
+}
+
+/// One packet in twelve has *every* optional field and property present, one in twelve none at all: with independent
+/// choices a CONNACK with all its 17 kinds of property turns up once in 100,000 packets.
+fn choose_opt_mode(t: &mut Tape) {
+    // (an exhausted tape picks 0: independent choices, all of which then come out "absent" - the shortest packet)
+    OPT_MODE.with(|m| m.set(match t.pick(12) {
+        1 => 1,
+        2 => 2,
+        _ => 0,
+    }));
+}
+
 fn opt<T>(t: &mut Tape, f: impl FnOnce(&mut Tape) -> T) -> Option<T> {
-    if t.flag() {
+    let mode = OPT_MODE.with(|m| m.get());
+    let take = t.flag();
+    if (take && mode != 2) || mode == 1 {
         Some(f(t))
     } else {
         None
@@ -239,7 +257,9 @@ fn opt<T>(t: &mut Tape, f: impl FnOnce(&mut Tape) -> T) -> Option<T> {
 }
 
 fn try_opt<T>(t: &mut Tape, f: impl FnOnce(&mut Tape) -> Result<T, GenError>) -> Result<Option<T>, GenError> {
-    if t.flag() {
+    let mode = OPT_MODE.with(|m| m.get());
+    let take = t.flag();
+    if (take && mode != 2) || mode == 1 {
         Ok(Some(f(t)?))
     } else {
         Ok(None)
@@ -266,6 +286,13 @@ pub fn gen_v3_connect(t: &mut Tape, cfg: &GenCfg, proto: Protocol) -> Result<v3:
 }
 
 pub fn gen_v3_of_type(t: &mut Tape, cfg: &GenCfg, typ: usize) -> Result<v3::Packet, GenError> {
+    choose_opt_mode(t);
+    let r = gen_v3_of_type_inner(t, cfg, typ);
+    OPT_MODE.with(|m| m.set(0));
+    r
+}
+
+fn gen_v3_of_type_inner(t: &mut Tape, cfg: &GenCfg, typ: usize) -> Result<v3::Packet, GenError> {
     use v3::Packet as P;
     Ok(match typ {
         0 => {
@@ -366,7 +393,13 @@ fn pad_v3(p: &mut v3::Packet, t: &mut Tape, cfg: &GenCfg) {
 pub const V5_TYPES: usize = 15;
 
 pub fn gen_user_props(t: &mut Tape, cfg: &GenCfg) -> Vec<v5::UserProperty> {
-    let n = t.weighted(&[10, 5, 3, 2, 1, 1, 1]);
+    let mode = OPT_MODE.with(|m| m.get());
+    let mut n = t.weighted(&[10, 5, 3, 2, 1, 1, 1]);
+    if mode == 1 {
+        n = n.max(1);
+    } else if mode == 2 {
+        n = 0;
+    }
     let mut v: Vec<v5::UserProperty> = Vec::new();
     for _ in 0..n {
         if !v.is_empty() && t.chance(1, 4) {
@@ -624,6 +657,13 @@ fn gen_sub_options(t: &mut Tape) -> v5::SubscriptionOptions {
 }
 
 pub fn gen_v5_of_type(t: &mut Tape, cfg: &GenCfg, typ: usize) -> Result<v5::Packet, GenError> {
+    choose_opt_mode(t);
+    let r = gen_v5_of_type_inner(t, cfg, typ);
+    OPT_MODE.with(|m| m.set(0));
+    r
+}
+
+fn gen_v5_of_type_inner(t: &mut Tape, cfg: &GenCfg, typ: usize) -> Result<v5::Packet, GenError> {
     use v5::Packet as P;
     Ok(match typ {
         0 => P::Connect(gen_v5_connect(t, cfg)?),
